@@ -70,6 +70,7 @@ def judge(case, ctx, dataset, sch, first):
     complete = ref.is_complete(ds)
     unifying = ref.proportional(sch, ref.PRESETS["unifying"])
     must_refuse = (not complete) and not unifying
+    ctx.unit()
     sub = {"ds": ds, "scheme": sch, "one": one}
     if not first:
         sub["after_scheme"] = case["scheme"]
